@@ -37,6 +37,12 @@ func runC14(c *Ctx) {
 	}
 	info := pk.TypesInfo
 
+	// (0) derived values unsubscribe from their sources and then take back what those sources
+	// contributed: that is only right if unsubscribe orders after a delivery in flight - the callback
+	// contract of C13 (the unsubscribed flag lives under the execution mutex)
+	checkGuards(r, p, "lock/guarded-by", []GuardRow{{Pkg: pkg, Type: "callback", Mutex: "executionMutex", Fields: []string{"unsubscribed", "lastUpdate"}}})
+	checkLockExecutionContract(r, p)
+
 	// (1) derived variable wiring
 	nFam := 0
 	for n := 1; n <= 8; n++ {
